@@ -1,15 +1,11 @@
-\* X02: exhaustive configuration, the code as built on a supported OS: one handler directory, two sequence
-\* numbers, every command in every order and interleaving with the service loop, the agent, out-of-band
-\* replacement of the agent, service crashes, a service that cannot be started; Health with Threshold 2 (real: 20;
-\* Health.cfg checks the automaton at the real constants).  The two findings' invariants are NOT listed here
-\* (ExtHandler_stray.cfg / ExtHandler_latch.cfg expect their violation, ExtHandler_fixed.cfg checks the proposed fix).
+\* X02: unsupported OS version: every command only reports Error for its own sequence number (exit 6).
 SPECIFICATION Spec
 CONSTANTS
-  Handlers = {"h1"}
+  Handlers = {"h1", "h2"}
   Seqs = {"1", "2"}
   Allowed <- AllCmds
   Good = {"x0"}
-  OsSupported = TRUE
+  OsSupported = FALSE
   SpawnMayFail = TRUE
   ExternalChange = TRUE
   ResetDecisionOnInstall = FALSE
